@@ -444,7 +444,7 @@ pub fn run(e: &Engine) {
         let input = enum_ub_case(idx);
         crate::engine::guarded(|| check_input(&input, true, rec)).map_err(|f| (input.to_json(), f))
     });
-    let n = e.tier.pick(30_000, 600_000);
+    let n = e.tier.pick(30_000, 300_000);
     let long = e.tier.pick(300, 70_000);
     e.run_prop(
         "random-shapes-all-front-ends",
